@@ -4,7 +4,7 @@ the implementation."""
 import fractions
 import itertools
 
-from harness.common import dec_res, enc_val, ensure_impl_on_path, run_impl, Unencodable
+from harness.common import dec_res, enc_val, ensure_impl_on_path, known_predicate, run_impl, Unencodable
 
 GEN_MODULES = ['excelutil', 'text']
 EXTRA_TARGETS = ('Proofs/C20.vo',)
@@ -15,6 +15,55 @@ POS = list(range(-1, 11))         # all n, k in -1..10
 ERR = '#VALUE!'
 SCALARS = [None, True, False, 0, 1, 3, -1, 3.0, 12345.0, -2.0, 0.5, 1.5, 2.5, 1e10, 7,
            '3', '1.5', ' 2 ', 'abc', '', 'TRUE', '#N/A', '#VALUE!', '#DIV/0!', '#EMPTY!', '1e2']
+
+
+# Predicates for whole input classes with one cause.  They are inert until the coordinator adds an
+# entry with the same id to known_findings.json.  Each is keyed on the oracle clause that failed
+# (case['oracle']) AND the input class, so other clauses on the same inputs still alarm.
+def _num(v):
+    return isinstance(v, (int, float)) and not isinstance(v, bool)
+
+
+@known_predicate('C20-find-start-below-1')
+def _kp_find_start(case):
+    return case['call'] == 'find' and case.get('oracle') == 'find-first' \
+        and len(case['args']) == 3 and _num(case['args'][2]) and case['args'][2] < 1
+
+
+@known_predicate('C20-find-fractional-start-raises')
+def _kp_find_fraction(case):
+    if case['call'] != 'find' or case.get('oracle') != 'raises-TypeError' or len(case['args']) != 3:
+        return False
+    try:
+        v = float(case['args'][2])
+    except (TypeError, ValueError):
+        return False
+    return isinstance(case['args'][2], (float, str)) and not isinstance(case['args'][2], bool) \
+        and (v != int(v) or isinstance(case['args'][2], str))
+
+
+@known_predicate('C20-trim-ends')
+def _kp_trim_ends(case):
+    s = case['args'][0]
+    return case['call'] == 'trim' and case.get('oracle') == 'trim-ends' and isinstance(s, str) \
+        and (s.startswith(' ') or s.endswith(' '))
+
+
+@known_predicate('C20-right-fractional-count')
+def _kp_right_fraction(case):
+    return case['call'] == 'right' and case.get('oracle') == 'slice-chars' and len(case['args']) == 2 \
+        and isinstance(case['args'][1], float) and 0 < case['args'][1] < 1
+
+
+@known_predicate('C20-text-half-even')
+def _kp_text_half_even(case):
+    return case['call'] == 'text' and case.get('oracle') == 'text-half-even'
+
+
+@known_predicate('C20-text-double-dot-keyerror')
+def _kp_text_keyerror(case):
+    return case['call'] == 'text' and case.get('oracle') == 'raises-KeyError' \
+        and isinstance(case['args'][1], str) and '..' in case['args'][1]
 
 
 def strings_upto(n, alpha=ALPHA):
@@ -185,7 +234,8 @@ def oracle(ctx, F, amp, f, a, i):
     """The identities of the property, evaluated on the implementation alone."""
     case = dict(call=f, args=list(a))
     if i[0] == 'raise':
-        ctx.violation(case, f"raises {i[1]} instead of returning a value or an error value", impl=i)
+        ctx.violation(dict(case, oracle=f'raises-{i[1]}'),
+                      f"raises {i[1]} instead of returning a value or an error value", impl=i)
         return
     r = i[1]
     texts = all(isinstance(x, str) and not is_err(x) for x in a if not isinstance(x, (int, float)))
@@ -202,20 +252,21 @@ def oracle(ctx, F, amp, f, a, i):
         else:
             want = s[len(s) - min(int(n), len(s)):]
         if r != want:
-            ctx.violation(case, f"{f.upper()} is not the {'first' if f == 'left' else 'last'} n characters "
+            ctx.violation(dict(case, oracle='slice-chars'),
+                          f"{f.upper()} is not the {'first' if f == 'left' else 'last'} n characters "
                                 "of the Excel rendering / #VALUE! for a negative count", impl=r, expected=want)
         if f == 'left' and n >= 0 and isinstance(a[0], str):
             ln = F['len_'](a[0])
             m = F['mid'](a[0], n + 1, ln)
             if not (isinstance(m, str) and r + m == s):
-                ctx.violation(dict(call='mid', args=[a[0], n + 1, ln]),
+                ctx.violation(dict(call='mid', args=[a[0], n + 1, ln], oracle='partition'),
                               "LEFT(s,n) & MID(s,n+1,LEN(s)) <> s", impl=[r, m], expected=s)
     elif f == 'mid' and isinstance(a[0], str) and not is_err(a[0]) \
             and all(isinstance(x, int) and not isinstance(x, bool) for x in a[1:]):
         s, n, k = a
         want = ERR if n < 1 or k < 0 else s[n - 1:n - 1 + k]
         if r != want:
-            ctx.violation(case, "MID is not the k characters from position n / #VALUE!", impl=r, expected=want)
+            ctx.violation(dict(case, oracle='slice-chars'), "MID is not the k characters from position n / #VALUE!", impl=r, expected=want)
     elif f == 'replace' and texts and isinstance(a[0], str) and isinstance(a[3], str) \
             and all(isinstance(x, int) and not isinstance(x, bool) for x in a[1:3]):
         s, n, k, t = a
@@ -224,7 +275,7 @@ def oracle(ctx, F, amp, f, a, i):
         else:
             want = F['left'](s, n - 1) + t + F['mid'](s, n + k, F['len_'](s))
         if r != want:
-            ctx.violation(case, "REPLACE(s,n,k,t) <> LEFT(s,n-1) & t & MID(s,n+k,LEN(s))", impl=r, expected=want)
+            ctx.violation(dict(case, oracle='replace-splice'), "REPLACE(s,n,k,t) <> LEFT(s,n-1) & t & MID(s,n+k,LEN(s))", impl=r, expected=want)
     elif f == 'find' and texts and isinstance(a[0], str) and isinstance(a[1], str) \
             and (len(a) == 2 or (isinstance(a[2], int) and not isinstance(a[2], bool))):
         p, s = a[0], a[1]
@@ -236,7 +287,7 @@ def oracle(ctx, F, amp, f, a, i):
                     want = q
                     break
         if r != want:
-            ctx.violation(case, "FIND is not the first position p >= start with MID(s,p,LEN(f)) = f "
+            ctx.violation(dict(case, oracle='find-first'), "FIND is not the first position p >= start with MID(s,p,LEN(f)) = f "
                                 "(or #VALUE!)", impl=r, expected=want)
     elif f == 'substitute' and texts and all(isinstance(x, str) for x in a[:3]) and a[1] != '' \
             and (len(a) == 3 or (isinstance(a[3], int) and not isinstance(a[3], bool))):
@@ -256,26 +307,27 @@ def oracle(ctx, F, amp, f, a, i):
             o = occ[a[3] - 1]
             want = t[:o] + new + t[o + len(old):]
         if r != want:
-            ctx.violation(case, "SUBSTITUTE does not replace all / exactly the i-th occurrence",
+            ctx.violation(dict(case, oracle='substitute'), "SUBSTITUTE does not replace all / exactly the i-th occurrence",
                           impl=r, expected=want)
     elif f == 'concatenate' and len(a) == 2 and not any(is_err(x) for x in a):
         want = run_impl(amp, a[0], 'BitAnd', a[1])
         if want != i:
-            ctx.violation(case, "CONCATENATE(a,b) <> a & b", impl=r, expected=want)
+            ctx.violation(dict(case, oracle='concatenate-amp'), "CONCATENATE(a,b) <> a & b", impl=r, expected=want)
     elif f == 'trim' and isinstance(a[0], str) and not is_err(a[0]):
         want = ' '.join(w for w in a[0].split(' ') if w)
         if r != want:
             what = "TRIM leaves a space at an end" if isinstance(r, str) and '  ' not in r \
                 else "TRIM leaves adjacent spaces"
-            ctx.violation(case, what, impl=r, expected=want)
+            ctx.violation(dict(case, oracle='trim-ends' if 'end' in what else 'trim-adjacent'),
+                          what, impl=r, expected=want)
         if F['trim'](r) != r:
-            ctx.violation(case, "TRIM is not idempotent", impl=F['trim'](r), expected=r)
+            ctx.violation(dict(case, oracle='idempotent'), "TRIM is not idempotent", impl=F['trim'](r), expected=r)
     elif f in ('upper', 'lower') and isinstance(a[0], str) and not is_err(a[0]):
         if F[f](r) != r:
-            ctx.violation(case, f"{f.upper()} is not idempotent", impl=F[f](r), expected=r)
+            ctx.violation(dict(case, oracle='idempotent'), f"{f.upper()} is not idempotent", impl=F[f](r), expected=r)
     elif f == 'exact' and texts and all(isinstance(x, str) for x in a):
         if r is not (a[0] == a[1]):
-            ctx.violation(case, "EXACT is not case-sensitive equality", impl=r, expected=a[0] == a[1])
+            ctx.violation(dict(case, oracle='exact'), "EXACT is not case-sensitive equality", impl=r, expected=a[0] == a[1])
 
 
 INT_PARTS = ['0', '#', '00', '000', '#,##0', '#,###', '#0', '0#', '##', '0,000', '#,#', ',0', '0,', '##,##', '']
@@ -364,13 +416,15 @@ def text_part(ctx, F):
             elif m != i:
                 ctx.divergence(case, i, m, 'Model/TextFormat.v = pycel.lib.text.text via apply_meta')
         if i[0] == 'raise':
-            ctx.violation(case, f"TEXT raises {i[1]}", impl=i)
+            ctx.violation(dict(case, oracle=f'raises-{i[1]}'), f"TEXT raises {i[1]}", impl=i)
         elif ip in ORACLE_INT and fp in ORACLE_FRAC and x is not None:
             want = text_expected(x, ip, fp, pct)
             if i[1] != want:
                 if i[1] == text_expected(x, ip, fp, pct, as_implemented=True):
                     what = ("TEXT rounds the binary value of the number half-to-even instead of the "
                             "decimal half away from zero")
+                    cls = 'text-half-even'
                 else:
                     what = "TEXT does not render the requested digits, grouping and percent scaling"
-                ctx.violation(case, what, impl=i[1], expected=want)
+                    cls = 'text-rendering'
+                ctx.violation(dict(case, oracle=cls), what, impl=i[1], expected=want)
